@@ -72,6 +72,8 @@ class Interp(object):
         self.strict_unknown = True
         self.regex_patterns = []
         self.site_script = {}     # id(call terminator) -> list of results to return in order
+        self.bit_loops = True     # hand-written loops over the set bits of a symbolic board are unrolled per bit (try_bit_loop)
+        self._bit_loop_cache = {}
         self.bulk_by_ref_as_exists = True
         self.deadline = None
         self.budget_s = int(os.environ.get('VF_CALL_BUDGET_S', '90'))
@@ -222,6 +224,9 @@ class Interp(object):
         return HF(out) if ch else h
 
     def merge_seq(self, c, a, b):
+        if len(a.items) == len(b.items) and all(x[0] == 'elem' for x in a.items) and all(x[0] == 'elem' for x in b.items):
+            # two sequences of the same known length (arrays, buffers): merge element by element
+            return Seq([x if x == y else ('elem', self.merge(c, x[1], y[1])) for x, y in zip(a.items, b.items)])
         i = 0
         n = min(len(a.items), len(b.items))
         while i < n and a.items[i] == b.items[i]:
@@ -1472,6 +1477,12 @@ class Interp(object):
                     join = ipd[j] if (j is not None and blocks[j]['term']['k'] == 'switch') else EXIT
                     if join is None:
                         join = EXIT
+                    # inside a loop the two branches meet again at the loop header (otherwise every conditional item would
+                    # double the number of paths through the remaining iterations)
+                    inner_, loops_ = self.loopinfo(body)
+                    h_ = inner_.get(bb)
+                    if h_ is not None and (join == EXIT or join not in loops_[h_]):
+                        join = h_
                     forkpc = fk.st_yes.pc
                     d = self.decide(fk.cond, forkpc)
                     sa = sb = None
@@ -1515,6 +1526,11 @@ class Interp(object):
                     continue
                 if isinstance(d, Top):
                     raise Undecided('switch on Top(%s) in %s at %s' % (d.why, fr.fname, t.get('at')))
+                if isinstance(d, BV) and self.bit_loops and not getattr(fr, 'no_bit_loop', False):
+                    nxt = self.try_bit_loop(st, fr, bb, t, d)
+                    if nxt is not None:
+                        st, bb = nxt
+                        continue
                 if isinstance(d, Term):
                     join = self.join_for(fr, bb, ipd)
                     st = self.fork(st, fr, d, t, join)
@@ -1535,6 +1551,134 @@ class Interp(object):
                 bb = join
             else:
                 raise Undecided('terminator %s in %s' % (k, fr.fname))
+
+    # ------------------------------------------------------------------ loops over the set bits of a symbolic bitboard
+    def try_bit_loop(self, st, fr, h, t, d):
+        """`while r != 0 { i = lowest (or highest) set bit of r; ...; clear that bit }` with r symbolic: after checking, for
+        every bit position, that one iteration clears exactly the extreme set bit of r, the loop is executed as
+        `for j in 0..64 { if r0[j] { body with r = r0 restricted to the bits not yet visited } }` and the per-bit results are
+        merged under the bits of r0.  Returns (state, exit block) or None when the loop is not of this kind."""
+        body = fr.fn
+        inner, loops = self.loopinfo(body)
+        if h not in loops or len(t['ts']) != 1:
+            return None
+        L = loops[h]
+        targets = [int(t['ts'][0][0])], [t['ts'][0][1], t['else']]
+        inside = [x for x in targets[1] if x in L]
+        outside = [x for x in targets[1] if x not in L]
+        if len(inside) != 1 or len(outside) != 1:
+            return None
+        bit = d.bits[0]
+        # the loop-carried 64-bit value whose non-zero test is the loop condition
+        cand = [c for c, v in st.store.items() if c[0] == fr.id and isinstance(v, BV) and v.w == 64 and not v.known()
+                and self.nonzero_bit(v) in (bit, B.bnot(bit))]
+        if not cand:
+            return None
+        latches = [u for u in L if h in successors(body['blocks'][u]['term'])]
+        if any(body['blocks'][u]['term']['k'] != 'goto' for u in latches):
+            return None
+        key = (fr.fname, h)
+        ck = self._bit_loop_cache.get(key)
+        if ck is None:
+            N = len(body['blocks'])
+            blocks2 = list(body['blocks'])
+            for u in latches:
+                blk = dict(blocks2[u])
+                tt = dict(blk['term'])
+                tt['t'] = N
+                blk['term'] = tt
+                blocks2[u] = blk
+            blocks2.append({'st': [], 'term': {'k': 'return'}})
+            body2 = dict(body)
+            body2['blocks'] = blocks2
+            ck = {'body2': body2, 'N': N, 'order': None}
+            self._bit_loop_cache[key] = ck
+        body2 = ck['body2']
+        fr2 = Frame(fr.id, fr.fname, body2, False)
+        fr2.no_bit_loop = True
+        r0 = None
+        rc = None
+        for c in cand:
+            # the loop variable is the one a single iteration changes; copies made in the header hold the same bits
+            r0 = st.store[c]
+            rc = c
+            break
+        same = [c for c in cand if all(x is y for x, y in zip(st.store[c].bits, r0.bits))]
+
+        def one(state, rbits, guard):
+            s2 = State(dict(state.store), state.pc + ((guard,) if guard is not C1 else ()))
+            for c in same:
+                s2.store[c] = BV(rbits)
+            out = self.exec_region(s2, fr2, h, EXIT)
+            if out is None or fr2.escapes:
+                raise Undecided('an iteration of the bit loop in %s diverges or returns from the function' % fr.fname)
+            if (fr.id, 0) in out.store and (fr.id, 0) not in state.store:
+                raise Undecided('the bit loop in %s returns from inside an iteration' % fr.fname)
+            out.exited = False
+            return out
+
+        def lemma(low):
+            for i in range(64):
+                if low:
+                    bits = [C0] * i + [C1] + [B.lit(('bitloop', 'h%d' % j)) for j in range(i + 1, 64)]
+                else:
+                    bits = [B.lit(('bitloop', 'h%d' % j)) for j in range(i)] + [C1] + [C0] * (63 - i)
+                try:
+                    out = one(st, bits, C1)
+                except Undecided:
+                    return False
+                want = list(bits)
+                want[i] = C0
+                changed = [c for c in same if not all(x is y for x, y in zip(out.store.get(c, BV(bits)).bits, bits))]
+                if not changed:
+                    return False
+                if not any(isinstance(out.store.get(c), BV) and all(x is y for x, y in zip(out.store[c].bits, want)) for c in changed):
+                    return False
+            return True
+        if ck['order'] is None:
+            saved = (dict(self.asserts_ok), dict(self.asserts_bad), dict(self.panics), list(self.events))
+            ck['order'] = 'low' if lemma(True) else ('high' if lemma(False) else 'no')
+            self.asserts_ok.clear(); self.asserts_ok.update(saved[0])
+            self.asserts_bad.clear(); self.asserts_bad.update(saved[1])
+            self.panics.clear(); self.panics.update(saved[2])
+            self.events[:] = saved[3]
+        if ck['order'] == 'no':
+            return None
+        cur = st
+        basepc = st.pc
+        idxs = range(64) if ck['order'] == 'low' else range(63, -1, -1)
+        for j in idxs:
+            g = r0.bits[j]
+            if g is C0:
+                continue
+            if ck['order'] == 'low':
+                rbits = [C0] * j + [C1] + list(r0.bits[j + 1:])
+            else:
+                rbits = list(r0.bits[:j]) + [C1] + [C0] * (63 - j)
+            dec = self.decide(g, cur.pc)
+            if dec is False:
+                continue
+            out = one(cur, rbits, g if dec is not True else C1)
+            if dec is True:
+                cur = State(out.store, basepc)
+            else:
+                cur = self.merge_states(g, out, State(dict(cur.store), basepc), basepc)
+                cur.pc = basepc
+        for c in same:
+            cur.store[c] = BV.const(0, 64)
+        self.ev('bit-loop', fr.fname, t.get('at'), ck['order'])
+        return cur, outside[0]
+
+    def deref_all(self, st, a):
+        """follow references (&&T ..) to the value, as far as the store knows them"""
+        n = 0
+        while isinstance(a, Ref) and n < 4:
+            try:
+                a = self.deref(st, a)
+            except Undecided:
+                break
+            n += 1
+        return a
 
     def join_for(self, fr, bb, ipd):
         """Join block of a data-dependent branch: its immediate post-dominator, or - when that lies outside the
@@ -1646,7 +1790,7 @@ class Interp(object):
         if self.watch:
             for suf, sink in self.watch.items():
                 if path == suf or path.endswith('::' + suf):
-                    sink.append((fr.fname, [self.deref(st, a) if isinstance(a, Ref) else a for a in args]))
+                    sink.append((fr.fname, [self.deref_all(st, a) for a in args]))
         scripted = self.site_script.get(id(t)) if self.site_script else None
         if scripted is not None:
             # a rule drives this call site with prepared results (loop-induction steps over an opaque iterator); the position
@@ -1743,8 +1887,9 @@ class Interp(object):
 
 
 class Frame(object):
-    __slots__ = ('id', 'fname', 'fn', 'is_promoted', 'escapes')
+    __slots__ = ('id', 'fname', 'fn', 'is_promoted', 'escapes', 'no_bit_loop')
 
     def __init__(self, id_, fname, fn, is_promoted):
         self.id, self.fname, self.fn, self.is_promoted = id_, fname, fn, is_promoted
         self.escapes = []
+        self.no_bit_loop = False
